@@ -66,8 +66,8 @@ func newRuntimes() [2]wazero.Runtime {
 
 func tuneGC() {
 	// histories allocate a fresh 64 KiB memory per instance: collect less often (bounded by a soft limit)
-	debug.SetGCPercent(1600)
-	debug.SetMemoryLimit(1 << 30)
+	debug.SetGCPercent(1000)
+	debug.SetMemoryLimit(512 << 20)
 }
 
 func child(tier string) {
@@ -237,7 +237,7 @@ func main() {
 	}
 	t0 := time.Now()
 	done := fw.Supervise(fw.SupOpts{N: len(us), Workers: workers, CaseTimeout: 10 * time.Minute, Mode: run.Tier,
-		Env:  []string{"VERIF_TIER=" + run.Tier, "GOGC=1600", "C01_DEADLINE_UNIX=" + strconv.FormatInt(run.Deadline.Unix(), 10)},
+		Env:  []string{"VERIF_TIER=" + run.Tier, "GOGC=1000", "C01_DEADLINE_UNIX=" + strconv.FormatInt(run.Deadline.Unix(), 10)},
 		Stop: func() bool { return run.Expired() }},
 		func(i int, out string, crash *fw.Crash) {
 			u := us[i]
